@@ -140,10 +140,12 @@ func evalStmtBlock(vm *r.VM, stmtBlock *syntax.StmtBlock) (r.Element, error) {
 		switch v := stmtX.(type) {
 		case *syntax.ClassDeclareStmt:
 			// declare class
+			vm.SetCurrentLine(v.GetCurrentLine())
 			if err := evalClassDeclareStmt(vm, v); err != nil {
 				return nil, err
 			}
 		case *syntax.FunctionDeclareStmt:
+			vm.SetCurrentLine(v.GetCurrentLine())
 			if v.DeclareType == syntax.DeclareTypeConstructor {
 				if err := evalConstructorDeclareStmt(vm, v); err != nil {
 					return nil, err
